@@ -68,6 +68,13 @@ func Check(before *world.World, _ world.Event, pass *world.Pass, after *world.Wo
 	}
 	phases := osw.SpecPhases(osObj.Content, osKey.Namespace)
 	v := osw.View{Before: before.S, Pass: pass}
+	// an ObjectSet without availability probes selects nothing: present objects pass
+	pr, _ := world.Nested(osObj.Content, "spec", "availabilityProbes")
+	prl, _ := pr.([]any)
+	probe := osw.RefProbe
+	if len(prl) == 0 {
+		probe = func(map[string]any) bool { return true }
+	}
 	var out []world.Finding
 	bad := func(id, f string, a ...any) {
 		out = append(out, world.Finding{Monitor: "phase-order", Identity: id, Message: fmt.Sprintf(f, a...)})
@@ -106,7 +113,7 @@ func Check(before *world.World, _ world.Event, pass *world.Pass, after *world.Wo
 			if !seen || resp == nil {
 				return false, fmt.Sprintf("object %s of phase %q was not found present in this pass", ok, p.Name)
 			}
-			if !osw.RefProbe(resp) {
+			if !probe(resp) {
 				return false, fmt.Sprintf("object %s of phase %q fails its probes in what the pass read (status class %s)", ok, p.Name, osw.StatusClass(resp))
 			}
 		}
@@ -249,6 +256,12 @@ func init() {
 				return 28
 			}
 			return 9
-		}, Run: run, Replay: replay, Parallel: true}},
+		}, Run: run, Replay: replay, Parallel: true},
+			{Name: "long-lived", Shards: func(t string) int {
+				if t == "thorough" {
+					return 5
+				}
+				return 2
+			}, Run: runLL, Replay: replayLL, Parallel: true}},
 	})
 }
